@@ -37,8 +37,29 @@ for d in sorted(glob.glob(os.path.join(ROOT, "seeded", "*"))):
                      if l.startswith("VIOLATION") or l.startswith("  ")]
             res = "detected" if r.returncode == 1 and lines else (
                 "MISSED" if r.returncode == 0 else "error")
+            # keep the shrunk witness as a regression replay if it passes on
+            # the unchanged tree
+            kept = ""
+            if res == "detected" and "--keep" in args:
+                for l in lines:
+                    if l.startswith("VIOLATION") and "replay=" in l:
+                        src = l.split("replay=", 1)[1].strip()
+                        if os.path.exists(src) and "/scratch/" in src:
+                            dst = os.path.join(ROOT, "replays", prop,
+                                               "seeded-%s.json" % name)
+                            ok = subprocess.run(
+                                [sys.executable,
+                                 os.path.join(ROOT, "verif.py"), "replay",
+                                 src], capture_output=True, text=True)
+                            if ok.returncode == 0:
+                                os.makedirs(os.path.dirname(dst),
+                                            exist_ok=True)
+                                os.replace(src, dst)
+                                kept = dst
+                            break
             results.append(dict(seed=name, check=prop, result=res,
-                                detail=" ".join(lines[:2])[:300]))
+                                detail=" ".join(lines[:2])[:300],
+                                kept_replay=kept))
             print(name, prop, res, " ".join(lines[:2])[:200], flush=True)
     finally:
         subprocess.run(["git", "-C", "/repo", "worktree", "remove", "--force",
